@@ -55,7 +55,28 @@ func ruleA14(r *Run, p *Prog, rule string, rels map[string]bool, want []string) 
 			}
 		})
 	}
+	// frozen instances "Type.field": atomics-only even if the last atomic access disappears
+	for _, w := range want {
+		if i := strings.IndexByte(w, '.'); i > 0 {
+			for rel := range rels {
+				if n := p.NamedType(rel, w[:i]); n != nil {
+					if st, ok := n.Underlying().(*types.Struct); ok {
+						for k := 0; k < st.NumFields(); k++ {
+							if st.Field(k).Name() == w[i+1:] {
+								fields[st.Field(k)] = true
+							}
+						}
+					}
+				}
+			}
+		}
+	}
 	found := map[string]bool{}
+	for fv := range fields {
+		if n := ownerStructName(p, rels, fv); n != "" {
+			found[n+"."+fv.Name()] = true
+		}
+	}
 	for fv := range fields {
 		found[fv.Name()] = true
 	}
@@ -166,4 +187,30 @@ func instrString(in ssa.Instruction) string {
 		return descr(v)
 	}
 	return in.String()
+}
+
+func ownerStructName(p *Prog, rels map[string]bool, fv *types.Var) string {
+	for rel := range rels {
+		pk := p.Pkg(rel)
+		if pk == nil {
+			continue
+		}
+		sc := pk.Pkg.Scope()
+		for _, n := range sc.Names() {
+			tn, ok := sc.Lookup(n).(*types.TypeName)
+			if !ok {
+				continue
+			}
+			st, ok := tn.Type().Underlying().(*types.Struct)
+			if !ok {
+				continue
+			}
+			for k := 0; k < st.NumFields(); k++ {
+				if st.Field(k) == fv {
+					return n
+				}
+			}
+		}
+	}
+	return ""
 }
